@@ -288,3 +288,30 @@ m('c12-outputs-mutated-elsewhere', 'C12', P, '        """Entering the RUNNING st
 m('c12-entry-failed-not-entered', 'C12', SM, "                new_state = exception.state\n                label = new_state.LABEL", "                label = new_state.LABEL", 'fire', 'transition_to')
 m('c12-dynamic-route-validates-nothing', 'C12', P, "            validation_error = port.validate_dynamic_ports({port_name: value})", "            validation_error = port.validate_dynamic_ports({})", 'fire', 'Process.out')
 m('c12-silent-rename-msg', 'C12', P, "            msg = f\"Error validating output '{value}' for port '{validation_error.port}': {validation_error.message}\"\n            raise ValueError(msg)", "            message = f\"Error validating output '{value}' for port '{validation_error.port}': {validation_error.message}\"\n            raise ValueError(message)", 'silent')
+
+# ------------------------------------------------------------------ C14
+m('c14-no-dereference', 'C14', PE, "Bundle(process, self._save_context, dereference=True)", "Bundle(process, self._save_context)", 'fire', 'InMemoryPersister.save_checkpoint')
+m('c14-load-aliases-again', 'C14', PE, "        return copy.deepcopy(self._checkpoints[pid][tag])", "        return self._checkpoints[pid][tag]", 'fire', 'InMemoryPersister.load_checkpoint', 'reverts the G18 fix')
+m('c14-tag-ignored-in-filename', 'C14', PE, "            filename = f'{pid}.{tag}.{_PICKLE_SUFFIX}'", "            filename = f'{pid}.{_PICKLE_SUFFIX}'", 'fire', 'pickle_filename')
+m('c14-delete-raises-when-missing', 'C14', PE, "        try:\n            os.remove(pickle_filepath)\n        except OSError:\n            pass", "        os.remove(pickle_filepath)", 'fire', 'PicklePersister.delete_checkpoint')
+m('c14-mem-delete-raises', 'C14', PE, "        try:\n            del self._checkpoints[pid][tag]\n        except KeyError:\n            pass", "        del self._checkpoints[pid][tag]", 'fire', 'InMemoryPersister.delete_checkpoint')
+m('c14-load-ignores-tag', 'C14', PE, "        filepath = self._pickle_filepath(pid, tag)\n        checkpoint = PicklePersister.load_pickle(filepath)", "        filepath = self._pickle_filepath(pid)\n        checkpoint = PicklePersister.load_pickle(filepath)", 'fire', 'PicklePersister.load_checkpoint')
+m('c14-delete-args-swapped', 'C14', PE, "        pickle_filepath = self._pickle_filepath(pid, tag)", "        pickle_filepath = self._pickle_filepath(tag, pid)", 'fire', 'PicklePersister.delete_checkpoint')
+m('c14-process-filter-wrong', 'C14', PE, "        return [c for c in self.get_checkpoints() if c.pid == pid]", "        return [c for c in self.get_checkpoints() if str(c.pid).startswith(str(pid))]", 'fire', 'get_process_checkpoints')
+m('c14-delete-process-all', 'C14', PE, "        if pid in self._checkpoints:\n            del self._checkpoints[pid]", "        self._checkpoints.clear()", 'fire', 'delete_process_checkpoints')
+m('c14-bundle-dereference-shallow', 'C14', PE, "            self.update(copy.deepcopy(savable.save(save_context)))", "            self.update(dict(savable.save(save_context)))", 'fire', 'Bundle.__init__')
+m('c14-silent-load-via-local', 'C14', PE, "        return copy.deepcopy(self._checkpoints[pid][tag])", "        bundle = copy.deepcopy(self._checkpoints[pid][tag])\n        return bundle", 'silent')
+
+# ------------------------------------------------------------------ C15
+m('c15-port-not-copied', 'C15', PO, "                self[port_name] = copy.deepcopy(port)", "                self[port_name] = port", 'fire', 'absorb')
+m('c15-no-ports-reset', 'C15', PO, "                portnamespace._ports = {}\n", "", 'fire', 'absorb')
+m('c15-options-ignored', 'C15', PO, "                setattr(self, attr, namespace_options.pop(attr, getattr(port_namespace, attr)))", "                setattr(self, attr, getattr(port_namespace, attr))", 'fire', 'absorb')
+m('c15-prefix-matching-again', 'C15', PO, "rule == port_name or rule.startswith(prefix) for rule in include", "rule.startswith(port_name) for rule in include", 'fire', 'absorb', 'reverts the G13 fix')
+m('c15-strip-without-separator', 'C15', PO, "        prefix = f'{namespace}{separator}'\n\n        for rule in rules:", "        prefix = f'{namespace}'\n\n        for rule in rules:", 'fire', 'strip_namespace')
+m('c15-both-accepted', 'C15', PO, "        if exclude is not None and include is not None:\n            raise ValueError('exclude and include are mutually exclusive')\n", "", 'fire', 'absorb')
+m('c15-expose-ignores-exclude', 'C15', SP, "        absorbed_ports = port_namespace.absorb(source, exclude, include, namespace_options)", "        absorbed_ports = port_namespace.absorb(source, None, include, namespace_options)", 'fire', '_expose_ports')
+m('c15-expose-into-destination', 'C15', SP, "        if namespace:\n            port_namespace = destination.create_port_namespace(namespace)\n        else:\n            port_namespace = destination", "        port_namespace = destination", 'fire', '_expose_ports')
+m('c15-outputs-from-inputs', 'C15', SP, "            source=process_class.spec().outputs,", "            source=process_class.spec().inputs,", 'fire', 'expose_outputs')
+m('c15-sub-rules-swapped', 'C15', PO, "                portnamespace.absorb(port, sub_exclude, sub_include)", "                portnamespace.absorb(port, sub_include, sub_exclude)", 'fire', 'absorb')
+m('c15-leftover-options-silently-dropped', 'C15', PO, "        if namespace_options:\n            raise ValueError(\n                f'the namespace_options {list(namespace_options.keys())}, is not a supported PortNamespace property'\n            )\n", "", 'fire', 'absorb')
+m('c15-silent-prefix-inline', 'C15', PO, "                prefix = f'{port_name}{self.NAMESPACE_SEPARATOR}'\n                if include and not any(rule == port_name or rule.startswith(prefix) for rule in include):", "                if include and not any(rule == port_name or rule.startswith(port_name + self.NAMESPACE_SEPARATOR) for rule in include):", 'silent')
